@@ -537,6 +537,75 @@ impl TurnClient {
     }
 }
 
+/// H8: `pub` wrappers for the crate-private TURN client pieces the conformance
+/// harness drives directly (compiled only with `--cfg rustrtc_verif`).
+#[cfg(rustrtc_verif)]
+impl TurnClient {
+    /// `url` is an ICE server URL (`turn:127.0.0.1:3478?transport=tcp`).
+    pub async fn verif_connect(url: &str) -> Result<Self> {
+        let uri = IceServerUri::parse(url)?;
+        Self::connect(&uri, false).await
+    }
+    /// Run the Allocate exchange; returns (relayed address, granted lifetime).
+    pub async fn verif_allocate(&self, username: &str, password: &str) -> Result<(SocketAddr, u32)> {
+        let a = self
+            .allocate(TurnCredentials {
+                username: username.to_string(),
+                password: password.to_string(),
+            })
+            .await?;
+        Ok((a.relayed_address, a.lifetime_secs))
+    }
+    /// Install a long-term credential context without talking to a server.
+    pub fn verif_set_auth(&self, username: &str, password: &str, realm: &str, nonce: &str) {
+        let key = long_term_key(username, realm, password);
+        *self.auth.lock() = Some(TurnAuthState::with_key(
+            username.to_string(),
+            password.to_string(),
+            realm.to_string(),
+            nonce.to_string(),
+            key,
+        ));
+    }
+    pub fn verif_long_term_key(username: &str, realm: &str, password: &str) -> Vec<u8> {
+        long_term_key(username, realm, password)
+    }
+    pub async fn verif_refresh_packet(&self) -> Result<(Vec<u8>, [u8; 12])> {
+        self.create_refresh_packet().await
+    }
+    pub fn verif_destroy_packet(&self) -> Result<(Vec<u8>, [u8; 12])> {
+        self.create_destroy_packet_sync()
+    }
+    pub async fn verif_permission_packet(&self, peer: SocketAddr) -> Result<(Vec<u8>, [u8; 12])> {
+        self.create_permission_packet(peer).await
+    }
+    pub async fn verif_channel_bind_packet(&self, peer: SocketAddr) -> Result<(Vec<u8>, [u8; 12], u16)> {
+        self.create_channel_bind_packet(peer).await
+    }
+    pub async fn verif_channel_rebind_packet(
+        &self,
+        peer: SocketAddr,
+        channel: u16,
+    ) -> Result<(Vec<u8>, [u8; 12])> {
+        self.create_channel_rebind_packet(peer, channel).await
+    }
+    pub async fn verif_send_indication(&self, peer: SocketAddr, data: &[u8]) -> Result<()> {
+        self.send_indication(peer, data).await
+    }
+    pub async fn verif_send_channel_data(&self, channel: u16, data: &[u8]) -> Result<()> {
+        self.send_channel_data(channel, data).await
+    }
+    pub async fn verif_send(&self, data: &[u8]) -> Result<()> {
+        self.send(data).await
+    }
+    pub async fn verif_recv(&self, buf: &mut [u8]) -> Result<usize> {
+        self.recv(buf).await
+    }
+    pub async fn verif_add_channel(&self, peer: SocketAddr, channel: u16) {
+        self.add_channel(peer, channel).await
+    }
+}
+
 #[derive(Clone)]
 struct TurnNonce {
     realm: String,
